@@ -58,6 +58,8 @@ def gen_training_program(rng, r, tier, max_total=40, eqs=None, allow_segments=Tr
         # per-equation weights given as a dict whose insertion order differs from the equations' order
         prog["weights_dict"] = {"e1": rng.choice([0.5, 1.0, 2.0]), "e2": rng.choice([0.25, 1.5, 3.0]),
                                 "order": rng.choice([["e1", "e2"], ["e2", "e1"], ["e2", "e1"]])}
+    if eq != "sysode" and rng.random() < 0.2:
+        prog["hetero"] = True  # spatio-temporal heterogeneity of parameter a (b left out of the dict: legal)
     prog["dkeys"] = "both" if (eq != "sysode" and rng.random() < 0.5) else "default"
     okind = rng.choice(["sgd", "momentum", "adam", "adamw", "chain"])
     lr = {"sgd": 2e-2, "momentum": 1e-2, "adam": 5e-3, "adamw": 5e-3, "chain": 5e-3}[okind] * rng.choice([0.5, 1.0, 2.0])
@@ -81,6 +83,8 @@ def gen_training_program(rng, r, tier, max_total=40, eqs=None, allow_segments=Tr
         n = mb * rng.randint(1, 3) + rng.choice([0, 0, 1, 2])
         prog["obs_data"] = {"key": rng.randrange(2**31), "n": n, "b": mb,
                             "params": ["a"] if (eq != "sysode" and prog["param_data"] is None and rng.random() < 0.3) else []}
+    if eq == "odevec" and prog["obs_data"] is not None and rng.random() < 0.6:
+        prog["obs_slice"] = [1, 2]  # only the second output component is observed
     t = rng.random()
     if t < 0.35:
         prog["tracked"] = None
@@ -294,7 +298,9 @@ def shrink(program):
         yield dict(program, driver="M1")
     for k in ("param_data", "obs_data", "tracked"):
         if program.get(k) is not None:
-            yield dict(program, **{k: None})
+            yield dict(program, **{k: None}, **({"obs_slice": None} if k == "obs_data" else {}))
+    if program.get("hetero"):
+        yield dict(program, hetero=False)
     if program.get("verbose"):
         yield dict(program, verbose=False)
     t = program.get("terms", {})
